@@ -444,6 +444,8 @@ def _idkind(src) -> str:
 
 def _reject_tag(case, src, real) -> str:
     nm = case["nm"]
+    if real["exc"] != "ValueError":
+        return real["exc"]
     if src["kind"] == "table":
         if not src["int_ids"] and (nm.get("id") != "id" or nm.get("parent_id") != "parent_id"):
             return "renamed-id-column|" + _idkind(src)
@@ -1111,7 +1113,7 @@ def _variants(case: dict):
     nm = case["nm"]
     if case["kind"] == "geff":
         n = len(case["node_ids"])
-        for i in range(n):
+        for i in range(n if n > 1 else 0):  # keep one node (an empty store cannot be written)
             c = json.loads(json.dumps(case))
             nid = c["node_ids"].pop(i)
             for p in c["props"]:
@@ -1286,7 +1288,13 @@ def _shard(args) -> Result:
             ndiv += 1
             res.count("divergent-cases")
             if ndiv <= 2:
-                small = shrink(case, lambda c: _diverges(c, drv)[0], budget=120)
+                head = (creal.split(" ")[0], mout.split(" ")[0])
+
+                def _same_div(c, head=head):
+                    d, r0, m0 = _diverges(c, drv)
+                    return d and (r0.split(" ")[0], m0.split(" ")[0]) == head
+
+                small = shrink(case, _same_div, budget=120)
                 _, r, m = _diverges(small, drv)
                 res.failures.append(Failure(
                     "divergence", PROP, f"C12|model-vs-code|{case['kind']}|" + _div_kind(r, m),
